@@ -14,6 +14,6 @@ Print Assumptions C13_sharing.
 Theorem C13_five_facts : List.length sharing_facts = 5.
 Proof. reflexivity. Qed.
 (* the only process-wide mutable state are the class-level tables, each written once with a complete value (C20) *)
-Theorem C13_class_level_state : forall s, In s class_level_stores -> (let '(_, _, _, _, sh) := s in match sh with SSingleStore => true | SPublishThenFill => false end) = true.
+Theorem C13_class_level_state : forall s, In s class_level_stores -> (let '(_, _, _, _, sh) := s in match sh with SSingleStore => true | _ => false end) = true.
 Proof. apply forallb_forall. vm_compute. reflexivity. Qed.
 Print Assumptions C13_class_level_state.
